@@ -3,7 +3,8 @@
    or below the cutoff that list p (entries are one per peptide: NoDup hypothesis, which the
    pipeline guarantees because evidence is keyed by peptide). *)
 From PGF Require Import Base.Prelude Base.PyStr Base.StableSort Model.Fdr Model.Results
-  Proofs.FdrProofs Proofs.ResultsProofs.
+  Model.ProteinGroups Model.Grouping Model.Scoring Model.Competition Model.Rescue Model.Pipeline
+  Proofs.FdrProofs Proofs.ResultsProofs Proofs.PipelineOptions.
 From Coq Require Import Sorted.
 
 (* a peptide counts once per protein even if that protein is listed for it repeatedly *)
@@ -48,6 +49,21 @@ Theorem C06_rows_sorted : forall cut ka gs is ss qs rows,
   StronglySorted (fun a b => (r_score b <= r_score a)%Q) rows.
 Proof. exact rows_sorted. Qed.
 Print Assumptions C06_rows_sorted.
+
+(* which option decides the count cutoff: a first pass builds its rows without a count filter, whatever the PSM-level FDR ... *)
+Theorem C06_first_pass_ignores_psm_cutoff : forall me o st s l ka pc pc' p1 p2,
+  snd (one_pass me o st s l false ka pc p1 p2) = snd (one_pass me o st s l false ka pc' p1 p2).
+Proof. exact first_pass_ignores_psm_cut. Qed.
+Print Assumptions C06_first_pass_ignores_psm_cutoff.
+
+(* ... so for methods without a rescue step neither FDR option has any influence on the reported rows; with a rescue step the
+   count cutoff of the reported rows is o_cutoff (PEPs of the final grouping) (PSM-level FDR): the level is an argument of the
+   oracle, so a call asking for the cutoff of any other level is a disagreement of the correspondence check *)
+Theorem C06_no_rescue_ignores_fdr_options : forall me o st l ka thr thr' pc pc' pis,
+  is_rescued (m_grouping me) = false ->
+  snd (run me o st l ka thr pc pis) = snd (run me o st l ka thr' pc' pis).
+Proof. exact no_rescue_ignores_fdr_options. Qed.
+Print Assumptions C06_no_rescue_ignores_fdr_options.
 
 (* non-vacuity (the D3 witness): one peptide listing G1 twice counts once *)
 Example C06_witness :
